@@ -742,6 +742,79 @@ def run_count(case, ctx):
                       "default_sample_sets", f"tree {tree.index}")
 
 
+# ------------------------------------------------------------------ big shape ranks, deep trees
+def enum_deep(tier, seed):
+    pairs = [(30, 300, 310), (30, 1000, 1003), (25, 90002, 90012)]
+    if tier != "quick":
+        pairs += [(25, 123463, 123473), (28, 2000, 2001), (30, 200, 200), (30, 5000, 5001)]
+    for k, a, b in pairs:
+        yield dict(kind="pair", k=k, a=a, b=b)
+    for n in ([1200] if tier == "quick" else [900, 1010, 1200, 2500]):
+        yield dict(kind="caterpillars", n=n)
+
+
+def _nested(tree, u, offset):
+    ch = tree.children(u)
+    if not ch:
+        return u + offset
+    return [_nested(tree, c, offset) for c in ch]
+
+
+def run_deep(case, ctx):
+    """(a) a root over two subtrees of equal size whose shape ranks are so large that products of ranks and shape counts
+    pass 2^53: rank() then unrank() must give back the same labelled topology; (b) two caterpillar trees of more than
+    a thousand samples differing at the bottom: the incremental tree-sequence count equals the per-tree count."""
+    import tskit
+
+    ctx.nt(True)
+    if case["kind"] == "pair":
+        k = case["k"]
+        ctx.label("pair")
+        A = tskit.Tree.unrank(k, (case["a"], 0))
+        B = tskit.Tree.unrank(k, (case["b"], 0))
+        topo = [_nested(A, A.root, 0), _nested(B, B.root, k)]
+        tree = build_tree(tskit, topo, 2 * k)
+        r = tree.rank()
+        back = tskit.Tree.unrank(2 * k, r)
+        ctx.check(canon_tree(back) == canon_tree(tree), "unrank_rank",
+                  f"root over two {k}-leaf subtrees of shape ranks {case['a']}, {case['b']}: rank {tuple(r)} unranks to a "
+                  "different topology")
+        ctx.check(tuple(back.rank()) == tuple(r), "rank_unrank", f"unrank({2 * k}, {tuple(r)}).rank() = {tuple(back.rank())}")
+        return
+    n = case["n"]
+    ctx.label("caterpillars")
+    t = tskit.TableCollection(2.0)
+    for _ in range(n):
+        t.nodes.add_row(flags=1, time=0.0)
+    # caterpillar: internal node i (time i+1) joins leaf i+1 with the previous internal node; the bottom cherry is
+    # (0, 1) on [0, 1) and (0, 2) with leaf 1 attached one level up on [1, 2)
+    internal = [t.nodes.add_row(time=float(i + 1)) for i in range(n - 1)]
+    extra = t.nodes.add_row(time=1.0)
+    rows = []
+    rows.append((0.0, 1.0, internal[0], 0))
+    rows.append((0.0, 1.0, internal[0], 1))
+    rows.append((1.0, 2.0, extra, 0))
+    rows.append((1.0, 2.0, extra, 2))
+    rows.append((0.0, 1.0, internal[1], internal[0]))
+    rows.append((0.0, 1.0, internal[1], 2))
+    rows.append((1.0, 2.0, internal[1], extra))
+    rows.append((1.0, 2.0, internal[1], 1))
+    for i in range(2, n - 1):
+        rows.append((0.0, 2.0, internal[i], internal[i - 1]))
+        rows.append((0.0, 2.0, internal[i], i + 1))
+    for l, r_, p_, c in rows:
+        t.edges.add_row(l, r_, p_, c)
+    t.sort()
+    ts = t.tree_sequence()
+    ctx.check(ts.num_trees == 2, "harness", "two trees expected")
+    sets = [[0], [1, 2], [n - 1, n // 2]]
+    inc = list(ts.count_topologies(sets))
+    ctx.check(len(inc) == 2, "ts_count_len", f"{len(inc)} counters for 2 trees")
+    for i, tree in enumerate(ts.trees()):
+        ctx.check(normalise_counter(inc[i]) == normalise_counter(tree.count_topologies(sets)), "ts_vs_tree",
+                  f"tree {i}: incremental count differs from Tree.count_topologies")
+
+
 SUBCHECKS = [
     SubCheck("C15.exhaustive_small", run_small, enumerate=enum_small, quick=1, thorough=1,
              rule="every n from 1 to 6 (quick) / 7 (thorough), all trees; non-trivial = n >= 4"),
@@ -760,4 +833,7 @@ SUBCHECKS = [
              floors={"sets>=3": 0.2, "polytomy": 0.2, "multi_root": 0.15, "multi_tree": 0.15, "unary": 0.2,
                      "internal_sample_raises": 0.03, "k=2_nonempty": 0.15, "k=3_nonempty": 0.05,
                      "big_set": 0.1, "several_topologies": 0.01, "non_sample_in_sets": 0.03}),
+    SubCheck("C15.deep", run_deep, enumerate=enum_deep, quick=1, thorough=1, shards=4, hang_s=1200,
+             rule="two 25-30 leaf subtrees with shape ranks beyond 2^53 / count(k) under one root; two caterpillars of >1000 "
+             "samples"),
 ]
